@@ -11,7 +11,7 @@
 (*         It is a RELATION (SeqNext returns a set) because the property   *)
 (*         is silent about some choices (which vote wins) and because the  *)
 (*         deviations of the code from the intended design are NAMED       *)
-(*         choices: LeakChoices, CapDecrChoices.                           *)
+(*         choices: LeakChoices, CapDecrChoices, SatChoices.               *)
 (* Part 2  the STEP machine: every operation as its sequence of lock /     *)
 (*         atomic-load / atomic-store / field steps as in the source, run  *)
 (*         by 2-3 processes, exhaustively interleaved by TLC.              *)
@@ -22,7 +22,10 @@ EXTENDS Integers, Sequences, FiniteSets, TLC
 CONSTANTS SelfMiner,        \* node.Self: its own timeout vote is skipped by IncrementTimeoutCount
           LeakChoices,      \* {TRUE}: as written, a rejected Restart returns with r.mutex held
                             \* {FALSE}: intended;  {TRUE,FALSE}: either (trace validation)
-          CapDecrChoices    \* {TRUE}: as written, checkCap may LOWER a count set above the cap
+          CapDecrChoices,   \* {TRUE}: as written, checkCap lowers a count that is above the cap (unreachable
+                            \*         once SetTimeoutCount saturates); {FALSE}: it never lowers
+          SatChoices        \* {TRUE}: as written (since aa8d528), SetTimeoutCount saturates at the cap;
+                            \* {FALSE}: it stores the given count (the code before that repair)
 \* The abstract state also carries the two parameters of the environment:
 \*   cap = server_chain.round_timeouts.timeout_cap (0 = no cap), thr = threshold passed to AddVRFShare
 
@@ -60,6 +63,7 @@ IncTocResults(s) ==
   IN  UNION { {IF d THEN CapOf(s, b) ELSE Max(s.toc, CapOf(s, b)) : d \in CapDecrChoices} : b \in bases }
 
 Out(s, r) == [s |-> s, r |-> r]
+SetTocValue(s, v, sat) == IF sat THEN CapOf(s, v) ELSE v
 
 SeqNext(op, s) ==
   IF UsesMutex(op.t) /\ s.locked THEN {Out(s, "hang")}
@@ -75,8 +79,9 @@ SeqNext(op, s) ==
                 THEN {Out(s, "false")}
                 ELSE {Out([s EXCEPT !.shares = PutF(@, op.m, op.v)], "true")}
        []   op.t = "AddNB"      -> {Out([s EXCEPT !.phase = Max(@, Share)], "none")}      \* :298-345
-       []   op.t = "SetToc"     -> IF op.v <= s.toc THEN {Out(s, "false")}                \* :169-179
-                                   ELSE {Out([s EXCEPT !.toc = op.v], "true")}
+       []   op.t = "SetToc"     ->                                                        \* SetTimeoutCount
+              {IF SetTocValue(s, op.v, sat) <= s.toc THEN Out(s, "false")
+               ELSE Out([s EXCEPT !.toc = SetTocValue(s, op.v, sat)], "true") : sat \in SatChoices}
        []   op.t = "IncToc"     -> {Out([s EXCEPT !.toc = n, !.votes = EmptyF], "none") : n \in IncTocResults(s)}
        []   op.t = "Vote"       -> {Out([s EXCEPT !.votes = PutF(@, op.m, op.v)], "none")}
        []   op.t = "GetToc"     -> {Out(s, Str(s.toc))}
